@@ -292,6 +292,7 @@ trait Small: Frame {
     fn small(i: usize, salt: u32) -> Self;
     fn small_signed(i: usize, salt: u32) -> Self::Signed;
     fn amp(salt: u32) -> <Self::Signed as Frame>::Float;
+    fn amp_ones() -> <Self::Signed as Frame>::Float;
     fn gain() -> <Self::Sample as dasp_sample::Sample>::Float;
 }
 macro_rules! small_arr {
@@ -305,6 +306,9 @@ macro_rules! small_arr {
             }
             fn amp(salt: u32) -> <Self::Signed as Frame>::Float {
                 core::array::from_fn(|c| $mkf([0.0, 1.0, 0.5, -1.0, 2.0, -0.5][(salt as usize + c) % 6]))
+            }
+            fn amp_ones() -> <Self::Signed as Frame>::Float {
+                core::array::from_fn(|_| $mkf(1.0))
             }
             fn gain() -> <Self::Sample as dasp_sample::Sample>::Float {
                 $mkf(0.5)
@@ -329,6 +333,9 @@ impl Small for f32 {
     fn amp(salt: u32) -> f32 {
         [0.0, 1.0, 0.5, -1.0, 2.0, -0.5][salt as usize % 6]
     }
+    fn amp_ones() -> f32 {
+        1.0
+    }
     fn gain() -> f32 {
         0.5
     }
@@ -343,7 +350,8 @@ where
     let a0: Vec<F> = (0..c.la).map(|i| F::small(if c.salt % 4 == 3 { i / 2 } else { i }, c.salt)).collect();
     let b_same: Vec<F> = (0..c.lb).map(|i| F::small(i + 13, c.salt)).collect();
     let b_signed: Vec<F::Signed> = (0..c.lb).map(|i| F::small_signed(i, c.salt)).collect();
-    let amp = F::amp(c.salt);
+    // salts 4 and 9 (mod 10): unity gain on every channel
+    let amp = if c.salt % 5 == 4 { F::amp_ones() } else { F::amp(c.salt) };
     // a mono control slice: positive keeps the frame, otherwise the frame is silenced
     let b_mono: Vec<f32> = (0..c.lb).map(|i| if (i + c.salt as usize) % 3 == 0 { -1.0 } else { 0.5 }).collect();
     let two_slices = !matches!(c.op, SliceOp::Equilibrium | SliceOp::MapInPlace);
@@ -454,7 +462,7 @@ pub fn run(ctx: &mut Ctx) {
         for &op in &SLICE_OPS {
             for la in 0..=6 {
                 for lb in 0..=(if op == SliceOp::ZipMapMixed { 24 } else { 6 }) {
-                    for salt in 0..4 {
+                    for salt in 0..5 {
                         cases.push(OpCase { ty, op, la, lb, salt });
                     }
                 }
